@@ -162,6 +162,12 @@ GoalValidVsLock ==
   /\ Undecided
   /\ \E a, b \in Corr : a # b /\ rs[a].validV # Nil /\ rs[b].lockedV # Nil /\ rs[a].validV # rs[b].lockedV
                           /\ rs[a].round >= 2 /\ rs[b].round >= 2
+\* stage 1 of the split-lock prefix: exactly one node locked in round 0, everybody has moved to round 1
+StageOneLockedRound1 ==
+  /\ Undecided
+  /\ \E a \in Corr : rs[a].lockedV # Nil /\ rs[a].lockedR = 0 /\ \A b \in Corr \ {a} : rs[b].lockedV = Nil
+  /\ \A n \in Corr : rs[n].round = 1 /\ inq[n] = << >>
+NoStageOneLockedRound1 == ~StageOneLockedRound1
 NoGoalSplitLockStale == ~GoalSplitLockStale
 NoGoalCommitWithoutBlock == ~GoalCommitWithoutBlock
 NoGoalOneDecidedOthersBehind == ~GoalOneDecidedOthersBehind
